@@ -89,7 +89,7 @@ func c06(c *Ctx) {
 	// R6: the jump installed for a method is built in private bytes (C01.R1): a shared buffer lets a method prepared later
 	// overwrite the destination of one prepared earlier
 	if !c.importing {
-		importSibling(c, "C01", "C06.R6", func(rule string) bool { return rule == "C01.R1" })
+		importSibling(c, "C01", "C06.R6", func(rule string) bool { return rule == "C01.R1" || rule == "C01.R6" })
 	}
 	r.Expl = "Structural clauses behind 'method mocks replace exactly the named method': the per-builder cache key of a struct/interface mocker is identity bearing (never reflect.Type.String()); the per-type method caches are keyed by exactly the requested name; for exported methods the patched origin is MethodByName(n).Func for the very name stored in the mocker, passed unchanged through proxy and patch; for unexported methods the symbol name is pkg.(*T).m / pkg.T.m built from the receiver kind, and symbol matching is exact (C10). Dispatch for value receivers and generic shapes at run time is not decided."
 	r.RuleText = "one obligation per (rule, lookup / call site / format)"
